@@ -335,7 +335,7 @@ pub fn run(env: &Env) -> i32 {
     replay_saved(env, &mut rep, &exec);
     let max_ops = env.tier.pick(4, 6);
     for nflows in [2usize, 3] {
-        let n = if nflows == 2 { env.cases(1500, 40000) } else { env.cases(500, 12000) };
+        let n = if nflows == 2 { env.cases(1500, 15000) } else { env.cases(500, 5000) };
         let r = run_cases(
             env,
             nflows as u64,
